@@ -3,3 +3,321 @@ From Coq Require Import List ZArith Bool String Lia.
 From Verif Require Import model.Nhcb.
 Import ListNotations.
 Open Scope Z_scope.
+
+(* ------------------------------------------------------------------ shapes of one step *)
+
+Definition erase (o : oentry) : oentry :=
+  match o with OSeries s v => OSeries (mkS (s_lset s) (s_ts s) 0 []) v | _ => o end.
+Definition visible (o : oentry) : bool := negb (is_nhcb o).
+Definition nonseries_o (o : oentry) : bool :=
+  match o with OSeries _ _ | ONhcb _ _ => false | _ => true end.
+Definition nonseries_b (e : bentry) : bool := match e with BSeries _ _ => false | _ => true end.
+
+Lemma process_nhcb_shape : forall p b p' fl,
+  process_nhcb p = (b, p', fl) -> fl = [] \/ exists s n, fl = [ONhcb s n].
+Proof.
+  intros p b p' fl H. unfold process_nhcb in H.
+  destruct (p_state p); try (inversion H; auto; fail).
+  destruct (convert (p_tmp p)) as [n|]; [|inversion H; auto].
+  destruct (validate n); inversion H; subst; [right; eauto | auto].
+Qed.
+
+Lemma process_nhcb_not_collecting : forall p,
+  p_state p <> SCollecting -> process_nhcb p = (false, p, []).
+Proof. intros p H. unfold process_nhcb. destruct (p_state p); congruence. Qed.
+
+Section Steps.
+Variable parse_le : string -> option num.
+Variable c : cfg.
+
+Lemma emit_series_shape : forall r s v p out,
+  emit_series c r s v = (p, out) ->
+  (out = [] /\ keep_classic c = false /\ fst r = true) \/
+  (exists st ex, out = [OSeries (mkS (s_lset s) (s_ts s) st ex) v] /\
+                 (fst r = false -> ex = s_ex s /\ (p_state p <> SCollecting -> st = s_st s))).
+Proof.
+  intros [isn p0] s v p out H. unfold emit_series in H.
+  destruct isn; simpl in *.
+  - destruct (keep_classic c); simpl in H; inversion H; subst; [right | left; auto].
+    do 2 eexists. split; [reflexivity|]. intros X; discriminate.
+  - inversion H; subst. right. unfold out_series. do 2 eexists. split; [reflexivity|].
+    intros _. split; [reflexivity|]. intros Hs. destruct (p_state p); congruence.
+Qed.
+
+Lemma step_series_eq : forall p s v,
+  step parse_le c p (BSeries s v) =
+  let q := set_ts p (s_ts s) in
+  match p_state q with
+  | SCollecting =>
+      if different_metric q (s_lset s) then
+        let '(_, p1, fl) := process_nhcb q in
+        let '(p2, out) := emit_series c (handle_classic parse_le c p1 s v) s v in
+        (p2, fl ++ out)
+      else emit_series c (handle_classic parse_le c q s v) s v
+  | SInhibiting =>
+      if different_metric q (s_lset s) then
+        emit_series c (handle_classic parse_le c (set_state q SStart) s v) s v
+      else emit_series c (false, q) s v
+  | SStart => emit_series c (handle_classic parse_le c q s v) s v
+  end.
+Proof. reflexivity. Qed.
+
+(* every step emits: at most one converted histogram, then the entry itself (a series entry
+   possibly swallowed or with other exemplars / start timestamp) *)
+Lemma step_shape : forall p e p' out,
+  step parse_le c p e = (p', out) ->
+  exists fl own, out = fl ++ own /\ (fl = [] \/ exists s n, fl = [ONhcb s n]) /\
+    match e with
+    | BSeries s v => own = [] /\ keep_classic c = false \/
+                     exists st ex, own = [OSeries (mkS (s_lset s) (s_ts s) st ex) v]
+    | _ => own = [to_o e]
+    end.
+Proof.
+  intros p e p' out H. destruct e as [s v|s hid|n t|k a b]; [rewrite step_series_eq in H; cbv zeta in H | simpl in H ..].
+  - set (q := set_ts p (s_ts s)) in *.
+    assert (Tail : forall r p2 o2, emit_series c r s v = (p2, o2) ->
+              o2 = [] /\ keep_classic c = false \/
+              exists st ex, o2 = [OSeries (mkS (s_lset s) (s_ts s) st ex) v]).
+    { intros r p2 o2 E. apply emit_series_shape in E.
+      destruct E as [[? [? ?]]|[st [ex [? _]]]]; [left; auto | right; eauto]. }
+    destruct (p_state q).
+    + destruct (emit_series c (handle_classic parse_le c q s v) s v) as [p2 o2] eqn:E.
+      injection H as <- <-. exists [], o2. split; [reflexivity|]. split; [auto|]. eapply Tail; eauto.
+    + destruct (different_metric q (s_lset s)).
+      * destruct (process_nhcb q) as [[b p1] fl] eqn:EP.
+        destruct (emit_series c (handle_classic parse_le c p1 s v) s v) as [p2 o2] eqn:E.
+        injection H as <- <-. exists fl, o2. split; [reflexivity|].
+        split; [eapply process_nhcb_shape; eauto|]. eapply Tail; eauto.
+      * destruct (emit_series c (handle_classic parse_le c q s v) s v) as [p2 o2] eqn:E.
+        injection H as <- <-. exists [], o2. split; [reflexivity|]. split; [auto|]. eapply Tail; eauto.
+    + destruct (different_metric q (s_lset s)).
+      * destruct (emit_series c (handle_classic parse_le c (set_state q SStart) s v) s v) as [p2 o2] eqn:E.
+        injection H as <- <-. exists [], o2. split; [reflexivity|]. split; [auto|]. eapply Tail; eauto.
+      * destruct (emit_series c (false, q) s v) as [p2 o2] eqn:E.
+        injection H as <- <-. exists [], o2. split; [reflexivity|]. split; [auto|]. eapply Tail; eauto.
+  - inversion H; subst. exists [], [OHist s hid]. auto.
+  - match type of H with context [process_nhcb ?q] => destruct (process_nhcb q) as [[b p1] fl] eqn:EP end.
+    inversion H; subst. exists fl, [OType n t]. split; [reflexivity|].
+    split; [eapply process_nhcb_shape; eauto | reflexivity].
+  - destruct (process_nhcb p) as [[b0 p1] fl] eqn:EP.
+    inversion H; subst. exists fl, [OOther k a b]. split; [reflexivity|].
+    split; [eapply process_nhcb_shape; eauto | reflexivity].
+Qed.
+
+Lemma filter_flush : forall (f : oentry -> bool) fl,
+  (forall s n, f (ONhcb s n) = false) ->
+  (fl = [] \/ exists s n, fl = [ONhcb s n]) -> filter f fl = [].
+Proof. intros f fl Hf [->|[s [n ->]]]; simpl; [reflexivity|]. rewrite Hf. reflexivity. Qed.
+
+Lemma step_nonseries : forall p e p' out,
+  step parse_le c p e = (p', out) ->
+  filter nonseries_o out = if nonseries_b e then [to_o e] else [].
+Proof.
+  intros p e p' out H. apply step_shape in H. destruct H as [fl [own [-> [Hfl Hown]]]].
+  rewrite filter_app, (filter_flush nonseries_o fl) by (auto; reflexivity). simpl.
+  destruct e; simpl in *; try (subst own; reflexivity).
+  destruct Hown as [[-> _]|[st [ex ->]]]; reflexivity.
+Qed.
+
+Lemma step_keep : forall p e p' out,
+  keep_classic c = true ->
+  step parse_le c p e = (p', out) ->
+  map erase (filter visible out) = [erase (to_o e)].
+Proof.
+  intros p e p' out Hk H. apply step_shape in H. destruct H as [fl [own [-> [Hfl Hown]]]].
+  rewrite filter_app, (filter_flush visible fl) by (auto; reflexivity). simpl.
+  destruct e; simpl in *; try (subst own; reflexivity).
+  destruct Hown as [[_ Hf]|[st [ex ->]]]; [congruence | reflexivity].
+Qed.
+
+Lemma run_from_nonseries : forall es p p' out,
+  run_from parse_le c p es = (p', out) ->
+  filter nonseries_o out = map to_o (filter nonseries_b es).
+Proof.
+  induction es as [|e r IH]; intros p p' out H; simpl in H.
+  - inversion H; reflexivity.
+  - destruct (step parse_le c p e) as [p1 o1] eqn:E1.
+    destruct (run_from parse_le c p1 r) as [p2 o2] eqn:E2.
+    inversion H; subst. rewrite filter_app, (step_nonseries _ _ _ _ E1), (IH _ _ _ E2).
+    simpl. destruct (nonseries_b e); reflexivity.
+Qed.
+
+Lemma run_from_keep : forall es p p' out,
+  keep_classic c = true ->
+  run_from parse_le c p es = (p', out) ->
+  map erase (filter visible out) = map erase (map to_o es).
+Proof.
+  induction es as [|e r IH]; intros p p' out Hk H; simpl in H.
+  - inversion H; reflexivity.
+  - destruct (step parse_le c p e) as [p1 o1] eqn:E1.
+    destruct (run_from parse_le c p1 r) as [p2 o2] eqn:E2.
+    inversion H; subst. rewrite filter_app, map_app, (step_keep _ _ _ _ Hk E1), (IH _ _ _ Hk E2).
+    reflexivity.
+Qed.
+
+Lemma final_flush_shape : forall p, 
+  snd (process_nhcb p) = [] \/ exists s n, snd (process_nhcb p) = [ONhcb s n].
+Proof.
+  intros p. destruct (process_nhcb p) as [[b p'] fl] eqn:E. simpl.
+  eapply process_nhcb_shape; eauto.
+Qed.
+
+Theorem passthrough : forall es eof,
+  filter nonseries_o (fst (run parse_le c es eof)) = map to_o (filter nonseries_b es).
+Proof.
+  intros es eof. unfold run. destruct (run_from parse_le c p_init es) as [p out] eqn:E. simpl.
+  destruct eof; [|eapply run_from_nonseries; eauto].
+  rewrite filter_app, (run_from_nonseries _ _ _ _ E).
+  rewrite (filter_flush nonseries_o _ (fun _ _ => eq_refl) (final_flush_shape p)).
+  apply app_nil_r.
+Qed.
+
+Theorem keep_classic_order : forall es eof,
+  keep_classic c = true ->
+  map erase (filter visible (fst (run parse_le c es eof))) = map erase (map to_o es).
+Proof.
+  intros es eof Hk. unfold run. destruct (run_from parse_le c p_init es) as [p out] eqn:E. simpl.
+  destruct eof; [|eapply run_from_keep; eauto].
+  rewrite filter_app, map_app, (run_from_keep _ _ _ _ Hk E).
+  rewrite (filter_flush visible _ (fun _ _ => eq_refl) (final_flush_shape p)).
+  apply app_nil_r.
+Qed.
+
+End Steps.
+
+(* ------------------------------------------------------------------ TempHistogram *)
+
+Definition last_opt (l : list bucket) : option bucket := last (map Some l) None.
+
+Lemma last_opt_snoc : forall l x, last_opt (l ++ [x]) = Some x.
+Proof.
+  unfold last_opt. intros l x. rewrite map_app. simpl. apply last_last.
+Qed.
+
+Lemma last_opt_none : forall l, last_opt l = None -> l = [].
+Proof.
+  intros l. destruct l as [|x r] using rev_ind; [reflexivity|].
+  rewrite last_opt_snoc. discriminate.
+Qed.
+
+(* feeding buckets one SetBucketCount at a time; None = Go panic *)
+Fixpoint feed (h : temph) (bs : list bucket) : option temph :=
+  match bs with
+  | [] => Some h
+  | (b, c) :: r => match set_bucket h b c with Some h' => feed h' r | None => None end
+  end.
+
+(* bounds strictly increasing (in particular no NaN), cumulative counts non-negative and
+   non-decreasing; [prev] is the bucket before the list *)
+Fixpoint incr (prev : option bucket) (bs : list bucket) : Prop :=
+  match bs with
+  | [] => True
+  | (b, c) :: r =>
+      num_eqb b NaN = false /\ 0 <= c /\
+      match prev with Some (pb, pc) => num_lt pb b = true /\ pc <= c | None => True end /\
+      incr (Some (b, c)) r
+  end.
+
+Lemma th_setb_setb : forall h a b, th_setb (th_setb h a) b = th_setb h b.
+Proof. reflexivity. Qed.
+
+Lemma feed_incr : forall bs pre h,
+  th_err h = false -> th_b h = pre -> incr (last_opt pre) bs ->
+  feed h bs = Some (th_setb h (pre ++ bs)).
+Proof.
+  induction bs as [|[b c] r IH]; intros pre h He Hb Hi.
+  - simpl. rewrite app_nil_r, <- Hb. destruct h; reflexivity.
+  - simpl in Hi. destruct Hi as [Hn [Hc [Hp Hr]]].
+    simpl. unfold set_bucket. rewrite He, Hn.
+    replace (c <? 0) with false by (symmetry; apply Z.ltb_ge; exact Hc).
+    rewrite Hb. fold (last_opt pre).
+    destruct (last_opt pre) as [[lle lc]|] eqn:EL.
+    + destruct Hp as [Hlt Hle]. rewrite Hlt.
+      replace (c <? lc) with false by (symmetry; apply Z.ltb_ge; exact Hle).
+      rewrite (IH (pre ++ [(b, c)]) (th_setb h (pre ++ [(b, c)]))); try reflexivity.
+      * rewrite th_setb_setb, <- app_assoc. reflexivity.
+      * exact He.
+      * rewrite last_opt_snoc. exact Hr.
+    + apply last_opt_none in EL. subst pre. rewrite EL.
+      rewrite (IH [(b, c)] (th_setb h [(b, c)])); try reflexivity; [exact He|].
+      change (last_opt [(b, c)]) with (Some (b, c)). exact Hr.
+Qed.
+
+Definition top (l : list bucket) : Z := last (map snd l) 0.
+
+Lemma decumulate_snoc : forall l p b n,
+  decumulate p (l ++ [(b, n)]) = decumulate p l ++ [n - last (map snd l) p].
+Proof.
+  induction l as [|[b0 c0] r IH]; intros p b n; simpl; [reflexivity|].
+  rewrite IH. f_equal. f_equal. f_equal. destruct r as [|[b1 c1] r']; reflexivity.
+Qed.
+
+Definition finite_le (b : bucket) : bool := match fst b with Fin _ | NInf => true | _ => false end.
+
+Lemma last_opt_finite : forall fin x, last_opt fin = Some x -> forallb finite_le fin = true ->
+  num_feq (fst x) PInf = false.
+Proof.
+  intros fin. destruct fin as [|y r] using rev_ind; intros x H Hf; [discriminate|].
+  rewrite last_opt_snoc in H. inversion H; subst.
+  rewrite forallb_app in Hf. apply andb_true_iff in Hf. destruct Hf as [_ Hf]. simpl in Hf.
+  rewrite andb_true_r in Hf. unfold finite_le in Hf. destruct (fst x); simpl; congruence.
+Qed.
+
+(* The conversion of a classic histogram given in the happy order.  [fin] are the buckets with a
+   finite upper bound, [inf] the cumulative count of the le="+Inf" bucket if there is one,
+   [cnt] the value of _count if there is one, [sum] of _sum (0 if absent). *)
+Definition expected_count (fin : list bucket) (inf cnt : option Z) : Z :=
+  match cnt, inf with Some c, _ => c | None, Some i => i | None, None => top fin end.
+
+Definition with_count (h : temph) (cnt : option Z) : temph :=
+  match cnt with Some c => set_count h c | None => h end.
+
+Theorem convert_sorted : forall fin inf cnt sum h0,
+  let infb := match inf with Some i => [(PInf, i)] | None => [] end in
+  let N := expected_count fin inf cnt in
+  forallb finite_le fin = true ->
+  incr None (fin ++ infb) ->
+  match cnt with Some c => 0 <= c | None => True end ->
+  match cnt, inf with Some c, Some i => c = i | _, _ => True end ->
+  feed th_empty (fin ++ infb) = Some h0 ->
+  convert (set_sum (with_count h0 cnt) sum) =
+  Some (mkNH (negb (forallb (fun b => is_int8 (snd b)) (fin ++ [(PInf, N)]) && is_int8 N))
+             N sum (map fst fin) (decumulate 0 fin ++ [N - top fin])).
+Proof.
+  intros fin inf cnt sum h0 infb N Hfin Hi Hc Hci Hf.
+  rewrite (feed_incr (fin ++ infb) [] th_empty eq_refl eq_refl Hi) in Hf.
+  inversion Hf; subst h0; clear Hf. simpl app.
+  assert (Hw : with_count (th_setb th_empty (fin ++ infb)) cnt =
+               mkTH (fin ++ infb) (match cnt with Some c => c | None => 0 end) (Fin 0) false
+                    (match cnt with Some _ => true | None => false end)).
+  { destruct cnt as [c0|]; simpl; [|reflexivity]. unfold set_count. simpl.
+    replace (c0 <? 0) with false by (symmetry; apply Z.ltb_ge; exact Hc). reflexivity. }
+  rewrite Hw. unfold set_sum, convert. simpl th_err. cbv iota. simpl th_b. simpl th_count. simpl th_hasCount. simpl th_sum.
+  fold (last_opt (fin ++ infb)).
+  destruct inf as [i|]; subst infb.
+  - (* with +Inf bucket *)
+    rewrite last_opt_snoc. simpl num_feq. cbv iota.
+    fold (last_opt (fin ++ [(PInf, i)])). rewrite last_opt_snoc.
+    assert (HN : N = i) by (unfold N, expected_count; destruct cnt; auto).
+    assert (Hcount : (match cnt with Some _ => true | None => false end) = true ->
+                     (match cnt with Some c0 => c0 | None => 0 end) = i) by (destruct cnt; [auto | discriminate]).
+    destruct cnt as [c0|]; simpl in *; subst.
+    + rewrite Z.eqb_refl, removelast_last, decumulate_snoc. unfold top. reflexivity.
+    + rewrite Z.eqb_refl, removelast_last, decumulate_snoc. unfold top. reflexivity.
+  - (* without: the +Inf bucket is appended with the overall count *)
+    rewrite app_nil_r in *.
+    destruct (last_opt fin) as [[lle lc]|] eqn:EL.
+    + rewrite (last_opt_finite fin (lle, lc) EL Hfin).
+      assert (Htop : top fin = lc).
+      { unfold top. destruct fin as [|y r] using rev_ind; [discriminate|].
+        rewrite last_opt_snoc in EL. inversion EL; subst. rewrite map_app. simpl. apply last_last. }
+      assert (HN : N = if (match cnt with Some _ => true | None => false end)
+                       then (match cnt with Some c0 => c0 | None => 0 end) else lc).
+      { unfold N, expected_count. destruct cnt; simpl; auto. }
+      rewrite <- HN. fold (last_opt (fin ++ [(PInf, N)])). rewrite last_opt_snoc, Z.eqb_refl.
+      rewrite removelast_last, decumulate_snoc. unfold top. reflexivity.
+    + apply last_opt_none in EL. subst fin. simpl.
+      assert (HN : N = match cnt with Some c0 => c0 | None => 0 end).
+      { unfold N, expected_count, top. destruct cnt; reflexivity. }
+      rewrite <- HN, Z.eqb_refl. unfold top. simpl. reflexivity.
+Qed.
